@@ -808,7 +808,7 @@ pub fn run(ctx: &mut Ctx) {
             }
         }
     });
-    let cases = ctx.tier.pick(40_000u32, 1_000_000);
+    let cases = ctx.tier.pick(80_000u32, 1_000_000);
     let nthreads = ctx.threads as u32;
     ctx.parallel(|ti, _n, st| {
         let f = run_proptest(history_strategy(), cases / nthreads + 1, seed ^ 0xC08B ^ ((ti as u64) << 36), st, |h, st| run_one(h, st, "random-history"));
